@@ -1,0 +1,28 @@
+//go:build verif
+
+package verifhook
+
+import (
+	"os"
+	"os/signal"
+	"runtime/coverage"
+	"syscall"
+)
+
+// With VERIF_COVERDIR set, a process built with `-tags verif -cover` writes its coverage counters to
+// that directory when it receives SIGUSR1 (the harness kills the processes it starts, and a killed
+// process would otherwise leave no coverage data). Without the variable nothing is installed.
+func init() {
+	dir := os.Getenv("VERIF_COVERDIR")
+	if dir == "" {
+		return
+	}
+	ch := make(chan os.Signal, 1)
+	signal.Notify(ch, syscall.SIGUSR1)
+	go func() {
+		for range ch {
+			coverage.WriteMetaDir(dir)
+			coverage.WriteCountersDir(dir)
+		}
+	}()
+}
